@@ -269,6 +269,23 @@ func c06Enrich(t *rapid.T, ops []Op) []Op {
 				lk.Inv = "ri"
 			}
 			out = append(out, lk)
+			// the life of one edge: closed, opened again, closed again (each version leaves an entry in the
+			// forward list and in the reverse index; a scope follows the live ones only)
+			if coin("x-unlink", 3) {
+				ul := Op{K: KUnlink, Idx: lk.Idx, ID: lk.ID, ID2: lk.ID2, Rel: lk.Rel, Inv: lk.Inv, Why: "c06-unlink"}
+				out = append(out, ul)
+				if coin("x-relink", 2) {
+					lk2 := lk
+					lk2.Why = "c06-relink"
+					out = append(out, lk2)
+					if coin("x-unlink-again", 2) {
+						ul2 := ul
+						ul2.Why = "c06-unlink-again"
+						ul2.Hard = coin("x-unlink-again-hard", 4)
+						out = append(out, ul2)
+					}
+				}
+			}
 		}
 		if len(live) >= 2 && coin("x-del", 6) {
 			id := rapid.SampledFrom(live).Draw(t, "xdel-id")
